@@ -500,6 +500,35 @@ impl MqttState {
     }
 }
 
+
+/// Verification hook (`cfg(kani)` only): mutable access to the crate-private bookkeeping
+/// so proof harnesses can build arbitrary pre-states and inspect post-states.
+#[cfg(kani)]
+impl MqttState {
+    #[allow(clippy::type_complexity)]
+    pub fn verif_fields(
+        &mut self,
+    ) -> (
+        &mut u16,
+        &mut u16,
+        &mut u16,
+        &mut u16,
+        &mut Vec<Option<Publish>>,
+        &mut FixedBitSet,
+        &mut FixedBitSet,
+    ) {
+        (
+            &mut self.last_pkid,
+            &mut self.last_puback,
+            &mut self.inflight,
+            &mut self.max_inflight,
+            &mut self.outgoing_pub,
+            &mut self.outgoing_rel,
+            &mut self.incoming_pub,
+        )
+    }
+}
+
 #[cfg(test)]
 mod test {
     use super::{MqttState, StateError};
